@@ -1,6 +1,8 @@
 package eng
 
 import (
+	"sort"
+
 	. "govc/term"
 )
 
@@ -15,6 +17,9 @@ import (
 func (e *Engine) prepareGoal(hyp, goal *Term) []*Term {
 	return e.prepareGoalMode(hyp, goal, false)
 }
+
+// instHints are extra instantiation terms (set per obligation by Discharge).
+var instHints []*Term
 
 // prepareGoalMode with dropQ replaces each positive universally quantified
 // hypothesis by its instances only (a weakening of the hypotheses: "unsat"
@@ -58,7 +63,7 @@ func (e *Engine) prepareGoalMode(hyp, goal *Term, dropQ bool) []*Term {
 		return g
 	}
 	g2 := skolemize(goal)
-	if (len(sks) == 0 || len(sks) > 4) && !dropQ {
+	if len(sks) > 4 && !dropQ {
 		return []*Term{c.And(hyp, c.Not(g2))}
 	}
 	if len(sks) > 4 {
@@ -68,11 +73,64 @@ func (e *Engine) prepareGoalMode(hyp, goal *Term, dropQ bool) []*Term {
 	for _, k := range sks {
 		insts = append(insts, k, c.Add(k, c.IntC(1)), c.Sub(k, c.IntC(1)))
 	}
+	// index-like ground terms of the goal: what the goal reads arrays at, and
+	// the integer arguments of the specification functions it mentions
+	{
+		seen := map[*Term]bool{}
+		for _, t := range insts {
+			seen[t] = true
+		}
+		var cands []*Term
+		add := func(t *Term) {
+			if t == nil || t.Sort != Int || t.IsConst() || seen[t] || t.HasBound() {
+				return
+			}
+			seen[t] = true
+			cands = append(cands, t)
+		}
+		vis := map[*Term]bool{}
+		var walk func(t *Term)
+		walk = func(t *Term) {
+			if vis[t] || t.Op == "forall" || t.Op == "exists" {
+				return
+			}
+			vis[t] = true
+			switch t.Op {
+			case "select":
+				idx := t.Args[1]
+				add(idx)
+				if idx.Op == "+" || idx.Op == "-" {
+					for _, a := range idx.Args {
+						add(a)
+					}
+				}
+			case "app":
+				for _, a := range t.Args {
+					add(a)
+				}
+			}
+			for _, a := range t.Args {
+				walk(a)
+			}
+		}
+		walk(g2)
+		for _, h := range instHints {
+			add(h)
+		}
+		sort.SliceStable(cands, func(i, j int) bool { return Size(cands[i]) < Size(cands[j]) })
+		if len(cands) > 6 {
+			cands = cands[:6]
+		}
+		insts = append(insts, cands...)
+	}
+	base := len(sks) * 3
+	budget := 400 // instances in total
 	type key struct {
 		t   *Term
 		pos bool
 	}
 	memo := map[key]*Term{}
+	depth := 0
 	var inst func(t *Term, pos bool) *Term
 	inst = func(t *Term, pos bool) *Term {
 		if t.Sort != Bool || len(t.Args) == 0 {
@@ -108,8 +166,38 @@ func (e *Engine) prepareGoalMode(hyp, goal *Term, dropQ bool) []*Term {
 				if dropQ {
 					parts = nil
 				}
-				for _, it := range insts {
-					parts = append(parts, c.Subst(t.Args[0], map[*Term]*Term{t.Bound[0]: it}))
+				use := insts
+				if depth > 0 && base < len(insts) {
+					// nested quantifiers: skolem-derived terms first, then the rest while the budget lasts
+					use = insts
+				}
+				for _, it := range use {
+					if budget <= 0 {
+						break
+					}
+					budget--
+					in := c.Subst(t.Args[0], map[*Term]*Term{t.Bound[0]: it})
+					if depth < 1 {
+						depth++
+						in = inst(in, true)
+						depth--
+					}
+					parts = append(parts, in)
+				}
+				r = c.And(parts...)
+			} else if pos && len(t.Bound) == 2 && t.Bound[0].Sort == Int && t.Bound[1].Sort == Int && depth == 0 {
+				parts := []*Term{t}
+				if dropQ {
+					parts = nil
+				}
+				for _, a := range insts {
+					for _, b := range insts {
+						if budget <= 0 {
+							break
+						}
+						budget--
+						parts = append(parts, c.Subst(t.Args[0], map[*Term]*Term{t.Bound[0]: a, t.Bound[1]: b}))
+					}
 				}
 				r = c.And(parts...)
 			} else if pos && dropQ {
